@@ -15,7 +15,7 @@ RULE = (
 )
 BOUNDS = {
     "quick": "C13 programs with k<=2 (windows {*, 1*, 1-2, 0+2}; with return-mode no-matches and unmatched-mode keep on * and 1-2) + 20 writer singles (windows {*, 1-2}, both return modes, unmatched-mode keep) + 380 ordered pairs (window *); all files of <=3 records over {k,n,blank}; every n",
-    "thorough": "C13 programs with k<=3 + writer singles/pairs/selected triples; files of <=4 records; 9 windows; every n",
+    "thorough": "C13 programs with k<=3 on files of <=4 records x 10 windows; writer singles/pairs x 4 windows and 990 triples on files of <=3 records; every n",
 }
 ASSUMPTIONS = ["differential oracle: no expected values, the three methods must agree with each other", "error policy collect"]
 CHUNK = 60
@@ -57,14 +57,16 @@ def cases(tier, seed):
     if tier == "thorough":
         triples = ["[ " + " ".join(t) + " ]" for t in itertools.permutations(WRITERS[:8] + WRITERS[17:], 3)]
     star = [["all"]]
-    wwins = [star, [["range", 1, 2]]] if tier == "quick" else wins
-    pwins = [star] if tier == "quick" else wins
+    wwins = [star, [["range", 1, 2]]] if tier == "quick" else c13.WINDOWS_Q
+    pwins = [star] if tier == "quick" else c13.WINDOWS_Q
     nm = "~ return-mode: no-matches ~ "
     um = "~ unmatched-mode: keep ~ "
     for pat in c13.files(nmax):
         for w in wins:
             for m in progs:
                 yield {"file": pat, "scan": w, "match": m}
+        if len(pat) > 3:
+            continue  # the writer families use files of <=3 records in both tiers
         for m in progs:
             yield {"file": pat, "scan": star, "match": m, "pre": nm}
             yield {"file": pat, "scan": star, "match": m, "pre": um}
